@@ -153,6 +153,10 @@ func runC04(c *core.Ctx) {
 					c04Case(c, t, ch, k, 0, k, caseID+"/itself", -3)
 					if ch >= 2 {
 						c04Case(c, t, ch, k, max(k-2, 0), k, caseID+"/window-over-partial-frame", -4)
+						if k >= 2 {
+							// a window over nothing but the unwritten tail, up to the capacity
+							c04Case(c, t, ch, k, -1, -1, caseID+"/window-over-unwritten-tail", -4)
+						}
 					}
 				}
 			}
@@ -301,6 +305,15 @@ func c04CaseBody(c *core.Ctx, t *dyn.TypeOps, ch, k, s, e int, caseID string, fo
 		b.AppendSample(w.NextStamp())
 	}
 	root := w.Adopt(b, "parent")
+	if s < 0 {
+		// the window over nothing but the unwritten tail of the parent as it
+		// is now, up to its capacity
+		s, e = b.Length(), b.Capacity()
+		if s >= e {
+			return
+		}
+		c.Obs("windows_over_nothing_but_the_unwritten_tail_up_to_the_capacity", 1)
+	}
 	win := w.Slice(root, s, e, "window")
 	if ragged && (ch+k+s+e)%2 == 0 {
 		// the parent was appended to BEFORE the window was cut; the appends now
